@@ -40,6 +40,13 @@ Qed.
 Lemma no_env_okB : env_okB no_env_B no_env_R.
 Proof. intro n. apply IB.fromZ_correct. Qed.
 
+Lemma ln2_env_okB : forall prec, env_okB (ln2_env_B prec) ln2_env_R.
+Proof.
+  intros prec n. unfold ln2_env_B, ln2_env_R.
+  pose proof (IB.ln_correct prec (IB.fromZ prec 2) (Xreal 2) (IB.fromZ_correct prec 2)) as H.
+  simpl in H. unfold Xln' in H. destruct (is_positive_spec 2) as [_|Hn]; [exact H|]. exfalso. lra.
+Qed.
+
 Definition sgn_means (s : sgn) (x : R) : Prop :=
   match s with
   | SPos => (0 < x)%R
@@ -71,10 +78,10 @@ Proof.
     + pose proof (Hl _ Hc) as Hx. rewrite <- (evalX_real env e _ Hx). apply Rle_refl.
 Qed.
 
-Theorem sign_at_sound : forall p e, sgn_means (sign_at p e) (evalR no_env_R e).
+Theorem sign_at_sound : forall p e, sgn_means (sign_at p e) (evalR ln2_env_R e).
 Proof.
   intros p e. unfold sign_at.
-  destruct (sign_interval_sound (FB.PtoP p) no_env_B no_env_R e no_env_okB) as (H1 & H2 & H3 & _).
+  destruct (sign_interval_sound (FB.PtoP p) (ln2_env_B (FB.PtoP p)) ln2_env_R e (ln2_env_okB _)) as (H1 & H2 & H3 & _).
   destruct (IB.sign_strict _) eqn:Es; simpl.
   - destruct (IB.sign_large _) eqn:El; simpl; auto.
   - apply H2; reflexivity.
@@ -82,7 +89,7 @@ Proof.
   - destruct (IB.sign_large _) eqn:El; simpl; auto.
 Qed.
 
-Theorem sign_of_sound : forall e, sgn_means (sign_of e) (evalR no_env_R e).
+Theorem sign_of_sound : forall e, sgn_means (sign_of e) (evalR ln2_env_R e).
 Proof.
   intro e. unfold sign_of.
   pose proof (sign_at_sound 90 e). pose proof (sign_at_sound 240 e). pose proof (sign_at_sound 700 e).
@@ -92,7 +99,7 @@ Qed.
 (* what a passed tolerance test means *)
 Theorem slack_sound : forall tp py v scale fl,
   is_ge0 (sign_of (slack tp py v scale fl)) = true ->
-  (Rabs (Q2R py - evalR no_env_R v) <= Q2R (D2Q 1 tp) * Rabs (evalR no_env_R scale) + Q2R fl)%R.
+  (Rabs (Q2R py - evalR ln2_env_R v) <= Q2R (D2Q 1 tp) * Rabs (evalR ln2_env_R scale) + Q2R fl)%R.
 Proof.
   intros tp py v scale fl H. pose proof (sign_of_sound (slack tp py v scale fl)) as S.
   unfold slack in S. cbn [evalR] in S.
@@ -102,7 +109,7 @@ Qed.
 (* what a proved violation means *)
 Theorem slack_violated_sound : forall tp py v scale fl,
   is_lt0 (sign_of (slack tp py v scale fl)) = true ->
-  (Rabs (Q2R py - evalR no_env_R v) > Q2R (D2Q 1 tp) * Rabs (evalR no_env_R scale) + Q2R fl)%R.
+  (Rabs (Q2R py - evalR ln2_env_R v) > Q2R (D2Q 1 tp) * Rabs (evalR ln2_env_R scale) + Q2R fl)%R.
 Proof.
   intros tp py v scale fl H. pose proof (sign_of_sound (slack tp py v scale fl)) as S.
   unfold slack in S. cbn [evalR] in S.
